@@ -350,6 +350,7 @@ func TestC04(t *testing.T) {
 	hx.Rapid(r, t, "writers", r.N(2000, 20000), genC04Script, c04Prop(t, r, "writers"))
 	hx.Rapid(r, t, "churn_writers", r.N(1000, 10000), func(rt *rapid.T) script { return genScript(rt, c04Profile) }, c04Prop(t, r, "churn_writers"))
 	hx.Rapid(r, t, "small_bodies_and_keepalives", r.N(300, 4000), genC04Small, c04SmallProp(t, r, "small_bodies_and_keepalives"))
+	hx.Rapid(r, t, "stalled_reader", r.N(300, 6000), genC04Stall, c04StallProp(t, r, "stalled_reader"))
 }
 
 // ---- small (untagged) bodies next to KEEPALIVEs, with slow writes
@@ -562,5 +563,174 @@ func genC04Small(rt *rapid.T) c04SmallCase {
 		}
 		c.Writers = append(c.Writers, wr)
 	}
+	return c
+}
+
+// ---- a remote that stops reading for a while (back-pressure)
+
+// The remote stops reading after Room more octets; corebgp's writes block
+// (WriteUpdate callers and the FSM's KEEPALIVEs alike) until it resumes
+// StallMs later. Whatever happened meanwhile, the stream is whole messages and
+// every WriteUpdate that returned nil is on the wire exactly once.
+type c04Stall struct {
+	Hold    int `json:"hold"`
+	Writers int `json:"writers"`
+	N       int `json:"n"`        // calls per writer
+	BodyLen int `json:"body_len"` // >= 16
+	Room    int `json:"room"`     // octets accepted before the writes block
+	StallMs int `json:"stall_ms"`
+	PreMs   int `json:"pre_ms"` // quiet time between establishment and the stall (timer KEEPALIVEs go out)
+}
+
+func c04StallProp(t *testing.T, r *hx.Run, sub string) func(c c04Stall) hx.Verdict {
+	return func(c c04Stall) hx.Verdict {
+		r.SetCurrent(sub, c)
+		total := c.Writers * c.N * (c.BodyLen + 19)
+		v := hx.Verdict{Class: fmt.Sprintf("hold=%d/writers=%d/blocks=%v", c.Hold, c.Writers, total > c.Room)}
+		if total > c.Room {
+			v.NT = fmt.Sprintf("%+v", c)
+		}
+		var dev *hx.Dev
+		fail := func(key, f string, a ...any) {
+			if dev == nil {
+				dev = hx.Devf(key, f, a...)
+			}
+		}
+		sp := world.PeerSpec{Remote: "10.0.0.2", LocalAS: 64512, RemoteAS: 64513, Passive: true, Hold: c.Hold}
+		o, serr := world.Single(t, "10.0.0.1", sp, false, nil, func(w *world.World, conn *memnet.Conn) {
+			world.Handshake(w, sp, conn, 90, 0x0a000002)
+			uw := w.Writer(sp.Remote, 0)
+			if uw == nil {
+				fail("setup", "session did not establish")
+				return
+			}
+			stop := make(chan struct{})
+			var kwg sync.WaitGroup
+			if c.Hold != 0 {
+				kwg.Add(1)
+				go func() { // the remote keeps the session alive
+					defer kwg.Done()
+					tk := time.NewTicker(time.Duration(c.Hold) * time.Second / 3)
+					defer tk.Stop()
+					for {
+						select {
+						case <-stop:
+							return
+						case <-tk.C:
+							conn.RemoteSend(wire.Keepalive(), nil)
+						}
+					}
+				}()
+			}
+			time.Sleep(time.Duration(c.PreMs) * time.Millisecond)
+			conn.StallWrites(c.Room)
+			type res struct {
+				body []byte
+				err  error
+			}
+			results := make([][]res, c.Writers)
+			var wwg sync.WaitGroup
+			for g := 0; g < c.Writers; g++ {
+				wwg.Add(1)
+				go func() {
+					defer wwg.Done()
+					for k := 0; k < c.N; k++ {
+						b := tagBody(0, 0, int64(g), k, c.BodyLen)
+						results[g] = append(results[g], res{b, uw.WriteUpdate(b)})
+					}
+				}()
+			}
+			time.Sleep(time.Duration(c.StallMs) * time.Millisecond)
+			conn.ResumeWrites()
+			wdone := make(chan struct{})
+			go func() { wwg.Wait(); close(wdone) }()
+			tm := time.NewTimer(30 * time.Second)
+			select {
+			case <-wdone:
+				tm.Stop()
+			case <-tm.C:
+				fail("writeupdate-blocked", "WriteUpdate callers are still blocked 30 virtual seconds after the remote resumed reading")
+				close(stop)
+				return
+			}
+			close(stop)
+			kwg.Wait()
+			w.Settle()
+			st := conn.Snapshot()
+			msgs, perr := wire.ParseStream(st.Bytes())
+			nerr := 0
+			for _, rs := range results {
+				for _, x := range rs {
+					if x.err != nil {
+						nerr++
+					}
+				}
+			}
+			if perr != nil {
+				fail("malformed-stream", "after a %d ms stall of the remote's reader (%d WriteUpdate calls failed): the bytes corebgp wrote are not whole well-formed messages: %v", c.StallMs, nerr, perr)
+				return
+			}
+			onWire := map[string]int{}
+			for _, m := range msgs {
+				if m.Type == wire.TypeUpdate {
+					onWire[string(m.Body)]++
+				}
+			}
+			for g, rs := range results {
+				last := -1
+				for k, x := range rs {
+					n := onWire[string(x.body)]
+					if n > 1 || (x.err == nil && n != 1) {
+						fail("write-count", "writer %d call %d returned %v; its UPDATE is on the wire %d times", g, k, x.err, n)
+						return
+					}
+					if n == 1 {
+						last = k
+					}
+				}
+				_ = last
+			}
+			// per writer: call order = wire order
+			pos := map[string]int{}
+			for i, m := range msgs {
+				if m.Type == wire.TypeUpdate {
+					pos[string(m.Body)] = i
+				}
+			}
+			for g, rs := range results {
+				prev := -1
+				for k, x := range rs {
+					if p, ok := pos[string(x.body)]; ok {
+						if p < prev {
+							fail("write-order", "writer %d: call %d is on the wire before an earlier call", g, k)
+							return
+						}
+						prev = p
+					}
+				}
+			}
+		})
+		if serr != nil {
+			fail("setup", "%v", serr)
+		}
+		if b := o.Bad(); b != "" {
+			fail("wedge", "%s", b)
+		}
+		v.Dev = dev
+		return v
+	}
+}
+
+func genC04Stall(rt *rapid.T) c04Stall {
+	c := c04Stall{Hold: pick(rt, "hold", 9, 9, 30, 0, 90), Writers: rapid.IntRange(1, 3).Draw(rt, "writers"), N: rapid.IntRange(1, 12).Draw(rt, "n"),
+		BodyLen: pick(rt, "len", 16, 100, 1000, 4077), Room: pick(rt, "room", 0, 1, 18, 19, 20, 500, 5000, 20000)}
+	h := c.Hold * 1000
+	if h == 0 {
+		h = 30000
+	}
+	// the FSM goroutine may itself sit in a blocked KEEPALIVE write; after a stall longer than the
+	// hold time the session may end with Hold Timer Expired - the stream must be whole all the same
+	c.StallMs = pick(rt, "stall", 1, h/9, h/3-1, h/3+1, h/2, h*8/10, h*12/10, 2*h+h/7)
+	c.PreMs = pick(rt, "pre", 0, h/3+1, h/2, h+1)
 	return c
 }
